@@ -48,14 +48,26 @@ variable {κ ν : Type} [DecidableEq κ]
 zero, which is a fact about IEEE doubles the kernel cannot evaluate: hypothesis `hlf`) -/
 theorem no_policy_exception_without_limits (c : Cfg κ) (t : Table κ ν) (auto : Bool) (newHp : Nat)
     (hm : t.mhp = noMaxHp) (hlf : t.lfBelow c = false) : t.checkResize c auto newHp = none := by
-  sorry
+  unfold Table.checkResize
+  rw [if_neg (fun h => h.1 hm), hlf, Bool.and_false]
+  rfl
 
 /-- the members the wrapper calls without a handler never fail in the model: the lookup/update/erase family returns
 `ok` (a plain C functor does not throw) -/
 theorem nonallocating_members_never_fail (c : Cfg κ) (canErase : Bool) (t : Table κ ν) (m : AMap κ ν) (k : κ)
     (fn : ν → FnOut ν) (h : Inv c t) (hr : Rel c t m) (hfn : ∀ v, ∃ v' er, fn v = .ret v' er) :
     ∃ b, (t.fnOp c canErase k fn).2.res = .ok b := by
-  sorry
+  obtain ⟨_, a2⟩ := C02.fnOp_refines c canErase t m k fn h hr
+  cases hl : m.lookup k with
+  | none =>
+    rw [hl] at a2
+    exact ⟨false, a2.1⟩
+  | some v =>
+    rw [hl] at a2
+    obtain ⟨v', er, hf⟩ := hfn v
+    obtain ⟨_, a3⟩ := a2
+    rw [hf] at a3
+    exact ⟨true, a3.1⟩
 
 /-- an allocation failure inside an inserting member leaves the table valid with its previous contents -/
 theorem enomem_state_kept (c : Cfg κ) (locked : Bool) (t : Table κ ν) (m : AMap κ ν) (k : κ) (v : ν)
@@ -63,6 +75,8 @@ theorem enomem_state_kept (c : Cfg κ) (locked : Bool) (t : Table κ ν) (m : AM
     (he : (t.uprase c locked k v false false (fun _ x => .ret x false)).2.1.res = .err .badAlloc) :
     Inv c (t.uprase c locked k v false false (fun _ x => .ret x false)).1 ∧
     Rel c (t.uprase c locked k v false false (fun _ x => .ret x false)).1 m := by
-  sorry
+  obtain ⟨a1, a2, _⟩ := C07.alloc_failure_atomic_partial c locked t m k v false false (fun _ x => .ret x false)
+    h hr hl .badAlloc he (by intro e; cases e)
+  exact ⟨a1, a2⟩
 
 end Cuckoo.Props.C15
